@@ -199,6 +199,29 @@ func (w *World) checkJsonScheduling(P string, pull *ssa.Function, scope *pullSco
 				}
 			}
 		}
+		// ... or the pop method schedules the member's end itself, after shortening the stack
+		if !ok && popCall != nil && len(sets) == 0 {
+			var shorten ssa.Instruction
+			allInstrs(jr.pop, func(in ssa.Instruction) {
+				if sl, isSl := in.(*ssa.Slice); isSl && sl.High != nil && isLenMinusConst(sl.High, nil) {
+					// the store of the shortened stack
+					for _, rr := range referrers(sl) {
+						if st, isSt := rr.(*ssa.Store); isSt {
+							shorten = st
+						}
+					}
+				}
+			})
+			inner := setCalls(jr.pop.Blocks, endField, true)
+			if shorten != nil && len(inner) == 1 && guardedByGetter(inner[0], keyField, true) && instrAfter(shorten, inner[0]) {
+				ok = true
+				for _, a := range guardAtoms(inner[0].Block()) {
+					if gc, isC := a.V.(*ssa.Call); isC && jr.getter[staticCallee(gc)] == keyField && !instrAfter(shorten, gc) {
+						ok = false
+					}
+				}
+			}
+		}
 		w.check(P, "R16.4", "closing "+d+": member end scheduled after the pop", ifPos(ifi), ok, fmt.Sprintf("pops, then sets the pending-end flag iff the enclosing state has its %q flag set: %v", keyField, ok))
 	}
 	for _, d := range []string{"{", "["} {
@@ -214,6 +237,29 @@ func (w *World) checkJsonScheduling(P string, pull *ssa.Function, scope *pullSco
 			}
 		}
 		ok := false
+		// ... in the arm, or in the push method itself before it appends the new state
+		var appendCall ssa.Instruction
+		allInstrs(jr.push, func(in ssa.Instruction) {
+			if c, isC := in.(*ssa.Call); isC {
+				if b, isB := c.Call.Value.(*ssa.Builtin); isB && b.Name() == "append" {
+					appendCall = c
+				}
+			}
+		})
+		if pushCall != nil && appendCall != nil {
+			for _, c := range setCalls(jr.push.Blocks, keyField, true) {
+				if instrAfter(appendCall, c) || c.Block() == appendCall.Block() && instrIndex(c) > instrIndex(appendCall) {
+					continue
+				}
+				for _, a := range guardAtoms(c.Block()) {
+					if bo, isBo := a.V.(*ssa.BinOp); isBo && bo.Op == token.EQL && a.Pol {
+						if gc, isC := bo.X.(*ssa.Call); isC && staticCallee(gc) == jr.current {
+							ok = true
+						}
+					}
+				}
+			}
+		}
 		for _, c := range setCalls(blocks, keyField, true) {
 			if pushCall == nil || instrAfter(pushCall, c) {
 				continue
